@@ -5,6 +5,7 @@ tiny random output capacities; 2..4 workers vs 1 worker (also under perturbed ti
 Two directed families through harness/zvh_det.c (op px): frames compressed WITH A DICTIONARY (every supply mode x attach / copy / load x fast levels
 x sizes around the cut-offs) on contexts whose history keeps the table indices running, and OPTIMAL-PARSER levels on short-match-dense inputs over
 contexts whose memory held different bytes before (pre-filled static buffers, filling malloc, overwritten scratch tables, deeper prior frames).
+copy_ctx_lines: the same through ZSTD_copyCCtx (frame begun on a prepared context, finished on a copy whose destination - and source - have a history).
 Three more directed families: BUFFER PLACEMENT (harness/zvh_place.c: dictionary / prefix and input, or the segments of a buffer-less frame, laid out in one
 arena adjacent-after / adjacent-before / one byte apart / far / on dead memory - never overlapping live history, same contiguity pattern), END WITH A LARGE
 INPUT AFTER THE INTERNAL BUFFER WAS DRAINED (flush or exactly filled blocks, then >= 1 block with ZSTD_e_end: roomy vs piecewise output; the recorded
@@ -83,6 +84,27 @@ def dict_history_lines(rng, quick):
         if i % 6 == 0 and sup not in "lL" and "c" not in hist and "d" not in hist: ctxk = rng.choice(["s7f", "sff"]); p[1004] = n
         out.append("px %s %s %s %s %s %d:%s %s:%d %d %d" % (ctxk, hist, sup, "-" if sup in "uUdB" else rng.choice("2pke"), frames.pstr(p), d, rng.choice("rrz"), rng.choice(["df", "df", "mix"]), n,
                                                           rng.choice([4096, 30000, 65536]), rng.randrange(1 << 30)))
+    return out
+
+
+def copy_ctx_lines(rng, quick):
+    """family 1b: a frame started on one context, duplicated with ZSTD_copyCCtx into another and finished there (supply K: ZSTD_compressBegin_usingDict, size unknown;
+    J: ZSTD_compressBegin_advanced with the parameters of (level, size, dictionary size)) may depend neither on what the DESTINATION of the copy compressed before nor on
+    what the prepared context did before: every structure the rest of the frame searches (hash / chain / 3-byte tables, and for the row-based finder of
+    greedy / lazy / lazy2 - levels 5..12 once the window exceeds 2^14 - the tag table and the salt of its hashes) has to come over with the copy.
+    Levels of every strategy, dictionaries from 2 KB to 110 KB, inputs made of dictionary fragments, histories of the destination that end without any reset
+    call (ZSTD_copyCCtx resets the destination itself), with a reset, with overwritten tables."""
+    out = []
+    hists = ["c", "a", "b", "cc", "ca", "da", "gb", "aT", "cf", "cs", "cR", "aP", "h", "dcT"]
+    lvls = [5, 6, 7, 8, 9, 10, 11, 12, 5, 8, 6, 7, 1, 3, 4, 13, 16, 19, -1, 2]
+    for i in range(44 if quick else 900):
+        lv = lvls[i % len(lvls)]
+        sup = "KKJ"[i % 3]
+        n, d = rng.choice([(300000, 100000), (140000, 20000), (20000, 2000), (60000, 32768), (600000, 110000), (131072, 21846), (16385, 5000), (250000, 60000)])
+        if lv >= 16 and n > 140000: n, d = 140000, 20000
+        ctxk = "h" if i % 4 else rng.choice(["pa5", "pff", "p00/p7f", "p7f/h"])
+        hist = hists[(i // 2) % len(hists)]
+        out.append("px %s %s %s - %s %d:%s %s:%d %d %d" % (ctxk, hist, sup, frames.pstr({100: lv}), d, rng.choice("rrrz"), rng.choice(["df", "df", "df", "mix"]), n, 65536, rng.randrange(1 << 30)))
     return out
 
 
@@ -301,6 +323,7 @@ def correspondence(ctx):
     lines += dict_history_lines(rng, ctx.quick())
     n_dict = len(lines) - n_det
     lines += opt_memory_lines(rng, ctx.quick())
+    lines += copy_ctx_lines(random.Random(ctx.seed * 104729 + 11), ctx.quick())        # own stream as well
     n_px = len(lines)
     lines += placement_lines(rng2, ctx.quick())
     n_pl = len(lines)
@@ -330,7 +353,7 @@ def correspondence(ctx):
         v = ln.split()[1]
         if ln.startswith("px "):
             w = ln.split()
-            v = "px-opt" if w[7].split(":")[0] in ("sm", "rec") or (w[3] == "n") else "px-dict"
+            v = "px-copy" if w[3] in ("K", "J") else "px-opt" if w[7].split(":")[0] in ("sm", "rec") or (w[3] == "n") else "px-dict"
         elif ln.startswith(("pd ", "ps ")):
             v = "place-" + ln[:2]
         elif ln.startswith("er "):
@@ -393,7 +416,8 @@ def correspondence(ctx):
                      "px-dict: frame with a dictionary (CDict by reference built with a level / with the context's parameters, loadDictionary by copy / by reference, prefix, usingCDict(+_advanced), usingDict, "
                      "initCStream_usingCDict, compressBegin_usingCDict_advanced) x attach / copy / load preference x levels 1-4 (and others) x one-shot / pledged / unknown-size / single-end-call x source and dictionary "
                      "sizes on both sides of the attach / copy / reload cut-offs, after histories that keep the table indices running (same-size frames with and without the dictionary, larger frames, failed and aborted "
-                     "frames, tables overwritten, each reset kind or none), on heap, filled-malloc and static contexts; px-opt: optimal-parser levels 13-22 and explicit btopt / btultra / btultra2 on inputs dense in short "
+                     "frames, tables overwritten, each reset kind or none), on heap, filled-malloc and static contexts; px-copy: frame begun on a prepared context (compressBegin_usingDict / compressBegin_advanced), ZSTD_copyCCtx into a context with a history "
+                     "(and from a prepared context with a history), compressEnd there, levels of every strategy incl. the row-based finder 5-12; px-opt: optimal-parser levels 13-22 and explicit btopt / btultra / btultra2 on inputs dense in short "
                      "matches, pairs of static contexts over buffers pre-filled with 0x00 / 0x7F / 0xFF, heap contexts whose malloc fills blocks with 0x00 / 0x01 / 0x7F / 0x80 / 0xA5 / 0xFF, price / match / frequency tables "
                      "overwritten between frames, and prior frames that reached deeper into the price table; endroom: flush / exactly filled blocks, then >= 1 block of input with e_end (and undirected histories), roomy vs three "
                      "piecewise output schedules (a DIFF is the known finding only if every direct compression of the caller's input met an empty internal buffer); place-pd / place-ps: the same calls with the caller's buffers at 7 / 5 relative placements "
